@@ -145,14 +145,18 @@ pub fn random_root(rng: &mut StdRng, starts: &mut gen::Starts) -> ((Option<Strin
             match found { Some((p, m)) => if rng.gen_bool(0.5) { (Some(p.make(m).to_fen()), vec![]) } else { (Some(p.to_fen()), vec![m.uci()]) }, None => continue }
         } else {
             let use_startpos = rng.gen_bool(0.35);
-            let base = if use_startpos { Pos::startpos() } else { starts.next(rng) };
+            let mut base = if use_startpos { Pos::startpos() } else { starts.next(rng) };
+            // full-move numbers around the places where the 16-bit ply index wraps
+            if !use_startpos && rng.gen_range(0..8) == 0 {
+                base.full = *[32766u32, 32767, 32768, 32769, 65534, 65535, 65536, 65537, 100_000].choose(rng).unwrap();
+            }
             let n = if rng.gen_bool(0.3) { 0 } else { rng.gen_range(0..=120) };
             let policy = gen::POLICIES[rng.gen_range(0..3)];
             let moves: Vec<String> = gen::walk(rng, &base, policy, n).1.iter().map(|m| m.uci()).collect();
             (if use_startpos { None } else { Some(base.to_fen()) }, moves)
         };
         if let Some((pos, history)) = position_of(&fen, &moves) {
-            if pos.full > 30000 || pos.half > 4000 { continue; }
+            if pos.full > 200_000 || pos.half > 4000 { continue; }
             return ((fen, moves), Root { pos, history });
         }
     }
@@ -183,7 +187,7 @@ pub fn run_cycle(d: &mut dyn Driver, c: &Cycle) -> CycleResult {
     } else {
         for g in &c.during { if let Err(e) = d.send(g) { return CycleResult::Dead(e); } }
     }
-    match d.until_bestmove(WATCHDOG) {
+    match d.await_bestmove(WATCHDOG) {
         Ok(outs) => CycleResult::Answered(collect(outs)),
         Err((WaitErr::Timeout, _)) => {
             // is the search thread still alive? a command to it fails if not
